@@ -34,6 +34,15 @@
                             new word).  [bad] of c13_resume_once also counts nodes queued on a non-matching word.
                             Holds because the regenerated flag add_compare_under_lock is 1 (c13_code_paths);
                             c13_unlocked_compare_refuted is the lost wakeup of the machine with the flag 0
+     c13_list_wellformed    the waiter list is a well-formed doubly linked list in every reachable state: acyclic (no node
+                            twice), every member has prev set and next = its successor (nullptr for the last; node link
+                            fields are explicit per deposit slot and persist across slot reuse: wake_one clears prev and
+                            next of a node it detaches, wake_all only prev), every member is the node of a coroutine
+                            suspended on it and is untaken or owned by a canceller that has not unlinked it.  With it
+                            remove_awaiter (both fix-ups under their regenerated guards) only writes link fields of
+                            members of the list: [bad] of c13_resume_once also counts a write into a node that is not in
+                            the list.  c13_unnested_fixup_refuted is the stray write of the machine with the
+                            next->prev fix-up outside the `if (node->prev)` block
      c13_cancel_iff_empty   BasicCancellable: whatever the calls of cancel / resume on one id, the awaiter is resumed
                             exactly once, by the first, and its optional is empty iff that first call was a cancel
    Partial / not mechanised: liveness is in safety form (c13_quiescent: no reachable quiescent state strands or leaks
@@ -116,6 +125,16 @@ Theorem c13_suspend_atomic : forall s i k j n x tok s',
 Proof. exact t_suspend_atomic. Qed.
 Print Assumptions c13_suspend_atomic.
 
+Theorem c13_list_wellformed : forall v0 cps kps s, Reach v0 cps kps s ->
+  NoDup (lst s) /\
+  map (nnext s) (lst s) = map enc (succs (lst s)) /\
+  (forall n, In n (lst s) ->
+     (n < nslots s)%nat /\ linked (slot_at s n) = true /\
+     kstat s (nco (slot_at s n)) = KSusp (nwi (slot_at s n)) n /\
+     (take_ok s n (nidv (slot_at s n)) = true \/ exists t, cst s t = CKLock n)).
+Proof. exact t_list_wellformed. Qed.
+Print Assumptions c13_list_wellformed.
+
 Theorem c13_cancel_iff_empty : forall idv w calls,
   cresumed (crun idv (w :: calls)) = 1%nat /\ cwins (crun idv (w :: calls)) = [w] /\
   (cresult_empty (crun idv (w :: calls)) = true <-> w = CCancel).
@@ -148,6 +167,16 @@ Theorem c13_unlocked_compare_refuted : exists sch,
   quiescent s = true /\ map cres (clients s) = [[RV; RWA 0]] /\ map kstv (coros s) = [KSusp 0 0] /\ fv s = 1 /\ bad s = 1%nat.
 Proof. exact unlocked_compare_lost_wakeup. Qed.
 Print Assumptions c13_unlocked_compare_refuted.
+
+(* the same machine with the next->prev fix-up of remove_awaiter outside the `if (node->prev)` block (regenerated flag
+   next_fixup_nested = 0): cancel wins the take of X, wake_all detaches X (keeping X->next) and takes Y, the canceller
+   then writes Y->prev although Y is not in the list any more *)
+Theorem c13_unnested_fixup_refuted : exists sch,
+  let s := run st (step cfg_fix2_unnested)
+               (init 1 [[OWaitTok 2; OCancel 1 0]; [OWaitTok 2; OWakeAll]] [(0%nat, [(1, true)]); (0%nat, [(1, true)])]) sch in
+  bad s = 1%nat /\ lst s = [] /\ map cpcv (clients s) = [CKResume 1; WAResume 0 [] 0].
+Proof. exact unnested_fixup_stray_write. Qed.
+Print Assumptions c13_unnested_fixup_refuted.
 
 (* non-vacuity: reachable states of the repaired code that satisfy the hypotheses above *)
 Example c13_ex_quiescent_waiter :
